@@ -570,9 +570,9 @@ def _oracle(case):
             # client gets no answer at all.  Judged a defect exactly when known_findings.json records it.
             fid = crash_finding(info)
             if fid is None:
-                # on_request_complete of the forward proxy plugin (e.g. a host that is not UTF-8, fixed
-                # by e5b7001): must end as a reject with a well-formed response, never as a bare close
-                return 'proxy-request-' + CRASH_SIG
+                # on_request_complete (non-UTF-8 host e5b7001, non-UTF-8 / NUL web path eb09b1e, empty
+                # method 1e14ff2 are fixed): must end with a well-formed response, never as a bare close
+                return 'request-' + CRASH_SIG
             if fid in RECORDED:
                 return CRASH_SIG + ':' + fid
             if sent:
@@ -582,6 +582,11 @@ def _oracle(case):
             decided = True
             continue
         closing = info['ret'] is True
+        if o == 'reject' and info.get('hook') == 'cd' and not sent and 'D29' in RECORDED:
+            # follow-up bytes (a later segment, or packed behind the first request) that the plugin's
+            # on_client_data refuses with a protocol exception carrying no response: bare close, and
+            # whatever the first request was waiting for is dropped — the other half of D29
+            return FOLLOWUP_SIG + ':D29'
         if o == 'reject' or closing:
             if sent:
                 why = h11_check(sent, 'other')
@@ -630,17 +635,17 @@ def oracle(case):
 
 
 CRASH_SIG = 'closed-without-response-after-unhandled-exception'
+FOLLOWUP_SIG = 'closed-without-response-after-malformed-follow-up'
 
 
 def crash_finding(info):
-    """which recorded finding (if any) covers a plugin hook that let a non-protocol exception escape"""
+    """which recorded finding (if any) covers a plugin hook that let a non-protocol exception escape:
+    only follow-up bytes handed to on_client_data — later segments, or (since 84c574d) the bytes packed
+    into the same segment behind the first request (D29).  Anything escaping on_request_complete
+    (proxy or web plugin: D27 / D28 / D31 are fixed) is an unconditional failure."""
     if info.get('hook') == 'cd':
-        return 'D29'       # follow-up bytes handed to on_client_data
-    if info.get('pname') == 'HttpProxyPlugin':
-        if info.get('method') == b'':
-            return 'D31'   # request line with an empty method: `assert self.method` in HttpParser.build
-        return None        # anything else in the proxy plugin's on_request_complete: no recorded finding
-    return 'D28'           # on_request_complete of the web server plugin (static path with NUL / non-UTF-8)
+        return 'D29'
+    return None
 
 
 def _recorded():
@@ -656,15 +661,13 @@ RECORDED = _recorded()
 
 
 def classify(case, sig):
-    if sig and sig.startswith(CRASH_SIG + ':'):
+    if sig and (sig.startswith(CRASH_SIG + ':') or sig.startswith(FOLLOWUP_SIG + ':')):
         return sig.rsplit(':', 1)[1]
     return None
 
 
 def finding_witnesses():
     return {
-        'D31': _run([b' http://h/ HTTP/1.1\r\n\r\n'], 0, 'ok'),
-        'D28': _run([b'GET /a\x00.txt HTTP/1.1\r\n\r\n'], 2, 'ok'),
         'D29': _run([b'GET http://h/ HTTP/1.1\r\n\r\n', b'POST http://h/ HTTP/1.1\r\nContent-Length: zz\r\n\r\n'], 0, 'ok'),
     }
 
@@ -846,6 +849,17 @@ def corpus():
     for req in PP_REQS:
         cs.append(_run([req], 0, 'ok', 1))                     # flag on, no PROXY line at all
         cs.append(_run([PP_VALID[0] + b'\r\n' + req], 2, 'ok', 1))
+    # former findings, now fixed: must yield a valid 400 / 404 / 502 (a revert is a VIOLATION)
+    cs.append(_run([b'GET http://\xff/ HTTP/1.1\r\n\r\n'], 0, 'ok'))                  # D27
+    for web in (1, 2):
+        cs.append(_run([b'GET /\xff HTTP/1.1\r\n\r\n'], web, 'ok'))                    # D28
+        cs.append(_run([b'GET /a\x00.txt HTTP/1.1\r\n\r\n'], web, 'ok'))
+    for plan in ('ok', 'refuse'):
+        cs.append(_run([b' http://h/ HTTP/1.1\r\n\r\n'], 0, plan))                      # D31
+        cs.append(_run([b' h:443 HTTP/1.1\r\n\r\n'], 0, plan))
+    # D29, packed into one segment with the first request (84c574d hands the leftover on)
+    for junk in (b'\r\n', b'GARBAGE\r\n\r\n', b'POST http://h/ HTTP/1.1\r\nContent-Length: zz\r\n\r\n'):
+        cs.append(_run([b'GET http://example.org/a HTTP/1.1\r\nHost: example.org\r\n\r\n' + junk], 0, 'ok'))
     for raw in STATIC_FIXED:
         cs.append(_run([raw], 2, 'ok'))
         cs.append(_run([raw[:7], raw[7:]], 2, 'ok'))
